@@ -44,6 +44,12 @@ EDITS = [
     ("format_with_precedence: the +1 moved into a new pure helper method", "src/internal/expr.rs",
      r"(?s)arg2\.format_with_precedence\(formatter, op_prec \+ 1\)\?;(.*?)    fn precedence\(&self\) -> i32 \{",
      r"arg2.format_with_precedence(formatter, op_prec + op.rhs_bump())?;\1    fn rhs_bump(&self) -> i32 {\n        match *self {\n            _ => 1,\n        }\n    }\n\n    fn precedence(&self) -> i32 {", ["C19"]),
+    ("write_rows: serialize into a Vec, then write_all + flush (restructured; UNDECIDED is the right answer)", "src/internal/table.rs",
+     r"(?s)        for \(index, column\) in self\.columns\.iter\(\)\.enumerate\(\) \{\n            let coltype = column\.coltype\(\);\n            for row in rows\.iter\(\) \{\n                coltype\.write_value\(\n                    &mut writer,(.*?)        writer\.flush\(\)\?;\n        Ok\(\(\)\)",
+     r"        let mut buffer = Vec::<u8>::new();\n        for (index, column) in self.columns.iter().enumerate() {\n            let coltype = column.coltype();\n            for row in rows.iter() {\n                coltype.write_value(\n                    &mut buffer,\1        writer.write_all(&buffer)?;\n        writer.flush()?;\n        Ok(())", ["C15", "C08"]),
+    ("SummaryInfo::write: serialize into a Vec, then write_all + flush", "src/internal/summary.rs",
+     r"    pub\(crate\) fn write<W: Write>\(&self, writer: W\) -> io::Result<\(\)> \{\n        self\.properties\.write\(writer\)\n    \}",
+     "    pub(crate) fn write<W: Write>(&self, mut writer: W) -> io::Result<()> {\n        let mut buffer = Vec::<u8>::new();\n        self.properties.write(&mut buffer)?;\n        writer.write_all(&buffer)?;\n        writer.flush()\n    }", ["C15"]),
     ("encode (streamname): comment", "src/internal/streamname.rs", r"(    let mut chars = name\.chars\(\)\.peekable\(\);\n    while let)", r"    // greedy packing\n\1", ["C11"]),
 ]
 
